@@ -162,6 +162,10 @@ def run_check(modname, tier, jobs=None, only=None):
         with ctxm.Pool(min(jobs, len(names))) as pool:
             for r in pool.imap_unordered(_run_unit, [(modname, n, tier) for n in names], chunksize=1):
                 results.append(r)
+                if os.environ.get("VERIF_PROGRESS") == "1":
+                    st = r.get("stats") or {}
+                    print(f"  .. {r['unit']}: {r['wall_s']:.1f}s paths={st.get('paths')} "
+                          f"{'ERROR' if r.get('error') else ''}", file=sys.stderr, flush=True)
     results.sort(key=lambda r: names.index(r["unit"]))
 
     total = Stats()
